@@ -394,39 +394,41 @@ def idxOf (a : Key) : List Key → Nat
   | [] => 0
   | x :: xs => if x = a then 0 else idxOf a xs + 1
 
+/-- an entry of `inputs`: `(field, value, rank)` for a field that was given, `(None, value, 0)` for an
+additional key -/
 structure Input (V : Type) where
-  field : PField V
+  field : Option (PField V)
   value : V
   rank : Nat
 
 structure DfScan (V : Type) where
-  inputs : List (Key × Input V) := []       -- name → (field, value, rank)
+  inputs : List (Key × Input V) := []       -- name → (field, value, rank) / additional key → (None, value, 0)
   conflicts : List Key := []                -- names of the fields given two different values
-  addition : List (Key × V) := []
-  errs : List Err := []
 
 /-- one iteration of the first loop.  `field.positional_only` (function parameters) is always False for the
 fields of a data class, so `not field or field.positional_only` is `not field` here. -/
-def dfScanStep {V : Type} [DecidableEq V] (W : World V) (P : Parser V) (o : Opts V)
+def dfScanStep {V : Type} [DecidableEq V] (W : World V) (P : Parser V)
     (s : DfScan V) (kv : Key × V) : DfScan V :=
   match getField W P kv.1 with
-  | none =>
-    let r := addStep W P o (s.addition, s.errs) kv
-    { s with addition := r.1, errs := r.2 }
+  | none => { s with inputs := dset kv.1 ⟨none, kv.2, 0⟩ s.inputs }
   | some f =>
     let rank := idxOf (if f.allAliases.contains kv.1 then kv.1 else W.lower kv.1) f.allAliases
     match dget f.name s.inputs with
     | some used =>
       let s := if aliasConflict used.value kv.2 ∧ !s.conflicts.contains f.name
                then { s with conflicts := s.conflicts ++ [f.name] } else s
-      if rank ≥ used.rank then s else { s with inputs := dset f.name ⟨f, kv.2, rank⟩ s.inputs }
-    | none => { s with inputs := dset f.name ⟨f, kv.2, rank⟩ s.inputs }
+      if rank ≥ used.rank then s else { s with inputs := dset f.name ⟨some f, kv.2, rank⟩ s.inputs }
+    | none => { s with inputs := dset f.name ⟨some f, kv.2, rank⟩ s.inputs }
 
-/-- second loop (base.py:465-487) -/
-def dfProvideAll {V : Type} (L : Legacy) (W : World V) (o : Opts V) (conflicts : List Key)
-    (inputs : List (Key × Input V)) (st : St V) : St V :=
-  inputs.foldl (fun st ni =>
-    provide L W o ni.2.field ni.2.value (conflicts.contains ni.1 && !o.ignoreAliasConflicts) st) st
+/-- one iteration of the second loop: an additional key goes through `parse_addition`, a field through the
+shared statements -/
+def dfItemStep {V : Type} (L : Legacy) (W : World V) (P : Parser V) (o : Opts V) (conflicts : List Key)
+    (acc : St V × List (Key × V)) (ni : Key × Input V) : St V × List (Key × V) :=
+  match ni.2.field with
+  | none =>
+    let r := parseAddition W P o ni.1 ni.2.value
+    ({ acc.1 with errs := acc.1.errs ++ r.2 }, match r.1 with | some x => dset ni.1 x acc.2 | none => acc.2)
+  | some f => (provide L W o f ni.2.value (conflicts.contains ni.1 && !o.ignoreAliasConflicts) acc.1, acc.2)
 
 /-- third loop (base.py:489-502) -/
 def dfAbsentAll {V : Type} (L : Legacy) (P : Parser V) (o : Opts V) (inputs : List (Key × Input V)) (st : St V) : St V :=
@@ -434,12 +436,11 @@ def dfAbsentAll {V : Type} (L : Legacy) (P : Parser V) (o : Opts V) (inputs : Li
 
 def dataFirst {V : Type} [DecidableEq V] (L : Legacy) (W : World V) (P : Parser V) (o : Opts V)
     (data : List (Key × V)) : St V :=
-  let s := data.foldl (dfScanStep W P o) {}
-  let st : St V := { errs := s.errs }
-  let st := dfProvideAll L W o s.conflicts s.inputs st
-  let st := dfAbsentAll L P o s.inputs st
+  let s := data.foldl (dfScanStep W P) {}
+  let r := s.inputs.foldl (dfItemStep L W P o s.conflicts) ({}, [])
+  let st := dfAbsentAll L P o s.inputs r.1
   let st := depsCheck P st
-  { st with result := dupdate st.result s.addition }
+  { st with result := dupdate st.result r.2 }
 
 /-! ### field-first strategy (base.py:525-640, after the fix) -/
 
